@@ -145,6 +145,21 @@ def autoConstruct (env : Env) (outs : List Nat) (payloadLen userFee : Nat) (chgA
 
 -- ------------------------------------------------------------------ fee subtraction (manual path)
 
+/-- the loop `for addr, amount := range amounts` of maybeSubtractFeeFromAmounts: subtract the share
+    from the selected recipients, add everything up (checked additions) -/
+def subEach (selected : List String) (eachSub : Nat) : List (String × Nat) → Nat → Except Err (List (String × Nat) × Nat)
+  | [], tot => .ok ([], tot)
+  | e :: rest, tot =>
+    if selected.contains e.1 ∧ e.2 < eachSub then .error .other          -- amount.Sub underflow
+    else
+      let v := if selected.contains e.1 then e.2 - eachSub else e.2
+      match addAmt tot v with
+      | .error err => .error err
+      | .ok tot' =>
+        match subEach selected eachSub rest tot' with
+        | .error err => .error err
+        | .ok (out, t) => .ok ((e.1, v) :: out, t)
+
 /-- maybeSubtractFeeFromAmounts(amounts, selected, requiredFee) on an association list
     (the Go map has distinct keys; iteration order does not influence the result).
     Returns (newAmounts, totalAndFee). -/
@@ -152,25 +167,14 @@ def maybeSubtractFee (amounts : List (String × Nat)) (selected : List String) (
     Except Err (List (String × Nat) × Nat) :=
   if selected.any (fun a => !(amounts.any (fun e => e.1 == a))) then .error .subfee else
   let n := selected.length
-  if n = 0 then do
-    let tot ← amounts.foldlM (fun acc e => addAmt acc e.2) fee
-    if fee > maxAmount then throw .other
-    pure (amounts, tot)
-  else do
+  if n = 0 then
+    if fee > maxAmount then .error .other
+    else subEach [] 0 amounts fee
+  else
     let eachSub := (fee + n - 1) / n
-    if eachSub > maxAmount then throw .other            -- NewAmountFromInt
-    let actual := eachSub * n
-    if actual > maxAmount then throw .other
-    let mut tot := actual
-    let mut out : List (String × Nat) := []
-    for e in amounts do
-      let mut v := e.2
-      if selected.contains e.1 then
-        if v < eachSub then throw .other               -- amount.Sub underflow
-        v := v - eachSub
-      out := out ++ [(e.1, v)]
-      tot ← addAmt tot v
-    pure (out, tot)
+    if eachSub > maxAmount then .error .other            -- NewAmountFromInt
+    else if eachSub * n > maxAmount then .error .other
+    else subEach selected eachSub amounts (eachSub * n)
 
 structure ManualRes where
   outs : List (String × Nat)         -- requested outputs after fee subtraction
@@ -178,26 +182,37 @@ structure ManualRes where
   fee : Nat
   deriving Repr, Inhabited
 
+/-- constructTxOut: dust check over the requested outputs, then the change -/
+def dustCheck (newA : List (String × Nat)) (change : Nat) : Except Err Unit :=
+  if newA.any (fun e => isDust e.2 Gen.TxBuild.p2wshScriptLen) then .error .dust
+  else if change ≠ 0 ∧ isDust change Gen.TxBuild.p2wshScriptLen then .error .dustChange
+  else .ok ()
+
 /-- the arithmetic of CreateRawTransaction after constructTxIn: `totalIn` = Σ input values,
     `nIn` inputs, requested `amounts`, `subfee` recipients; outputs are standard P2WSH. -/
 def manualBuild (totalIn nIn : Nat) (amounts : List (String × Nat)) (subfee : List String) :
-    Except Err ManualRes := do
+    Except Err ManualRes :=
   let feeNC := relayFee (estSize nIn amounts.length)
-  let (newA, totNC) ← maybeSubtractFee amounts subfee feeNC
-  if totalIn < totNC then throw .notEnough
-  let mut change := totalIn - totNC
-  let mut newA := newA
-  if change ≠ 0 then
-    let feeWC := relayFee (estSize nIn (amounts.length + 1))
-    let (newA', tot) ← maybeSubtractFee amounts subfee feeWC
-    newA := newA'
-    if totalIn ≤ tot then throw .notEnough
-    change := totalIn - tot
-  -- constructTxOut: dust check over requested outputs (in map order: any dust one fails) then change
-  if newA.any (fun e => isDust e.2 Gen.TxBuild.p2wshScriptLen) then throw .dust
-  if change ≠ 0 ∧ isDust change Gen.TxBuild.p2wshScriptLen then throw .dustChange
-  let totalOut := (newA.map (·.2)).sum + change
-  pure ⟨newA, change, totalIn - totalOut⟩
+  match maybeSubtractFee amounts subfee feeNC with
+  | .error e => .error e
+  | .ok (newA, totNC) =>
+    if totalIn < totNC then .error .notEnough
+    else if totalIn - totNC = 0 then
+      -- no change output
+      match dustCheck newA 0 with
+      | .error e => .error e
+      | .ok _ => .ok ⟨newA, 0, totalIn - (newA.map (·.2)).sum⟩
+    else
+      let feeWC := relayFee (estSize nIn (amounts.length + 1))
+      match maybeSubtractFee amounts subfee feeWC with
+      | .error e => .error e
+      | .ok (newA', tot) =>
+        if totalIn ≤ tot then .error .notEnough
+        else
+          let change := totalIn - tot
+          match dustCheck newA' change with
+          | .error e => .error e
+          | .ok _ => .ok ⟨newA', change, totalIn - ((newA'.map (·.2)).sum + change)⟩
 
 -- ------------------------------------------------------------------ fee ceiling (api/util.go)
 
@@ -230,5 +245,60 @@ def clearUsed (perDraft : Bool) (r : Reserved) (holder : String) (ins : List Str
         if rest.isEmpty then none else some (e.1, rest)
       else some e)
   else r.filter (fun e => !ins.contains e.1)
+
+-- ------------------------------------------------------------------ eligibility filter
+
+/-- a wallet coin as ScriptAddressUnspents hands it to the filter of getUtxosExcludeBindingAndStaking -/
+structure WCoin where
+  id : String
+  amt : Nat
+  addr : String
+  confs : Nat            -- uint32(syncHeight − height + 1)
+  maturity : Nat
+  spent : Bool
+  spentByUnmined : Bool
+  standard : Bool        -- Flags.Class is neither binding nor staking
+  inPool : Bool          -- TxMemPool().CheckPoolOutPointSpend
+  deriving Repr, Inhabited
+
+/-- the filter closure of getUtxosExcludeBindingAndStaking, restricted to the requested script set -/
+def eligibleFilter (r : Reserved) (addrs : List String) (c : WCoin) : Bool :=
+  decide (c.confs ≥ c.maturity) && !c.spentByUnmined && !c.spent && c.standard &&
+    !utxoUsed r c.id && !c.inPool && addrs.contains c.addr
+
+def WCoin.toCoin (c : WCoin) : Coin := ⟨c.amt, c.id, c.addr⟩
+
+/-- the coins submitted to the selector -/
+def eligibleOf (r : Reserved) (addrs : List String) (cs : List WCoin) : List Coin :=
+  (cs.filter (eligibleFilter r addrs)).map WCoin.toCoin
+
+-- ------------------------------------------------------------------ consecutive create calls
+
+/-- one automatic create call: what AutoCreateRawTransaction / CreateStaking… / CreateBinding… do with
+    the wallet's coins: filter, select and build, reserve the inputs for the returned draft -/
+structure CreateReq where
+  view : List WCoin            -- the wallet's unspent coins at the time of the call
+  addrs : List String          -- prepareFromAddresses
+  outs : List Nat
+  payloadLen : Nat := 0
+  userFee : Nat := 0
+  chgAddr : String := ""
+  holder : String              -- identity (txid) of the draft that is returned
+  deriving Inhabited
+
+structure Session where
+  reserved : Reserved := []
+  drafts : List (String × List String) := []     -- (identity, inputs) of the drafts returned so far
+  deriving Inhabited
+
+def createCall (s : Session) (q : CreateReq) : Session × Except Err AutoRes :=
+  match autoConstruct { coins := eligibleOf s.reserved q.addrs q.view } q.outs q.payloadLen q.userFee q.chgAddr with
+  | .error e => (s, .error e)
+  | .ok res =>
+    let ids := res.ins.map (·.id)
+    ({ reserved := markUsed s.reserved q.holder ids, drafts := s.drafts ++ [(q.holder, ids)] }, .ok res)
+
+/-- a sequence of consecutive create calls within the reservation window -/
+def runCreates (s : Session) (qs : List CreateReq) : Session := qs.foldl (fun s q => (createCall s q).1) s
 
 end MW.Model.Fee
